@@ -23,13 +23,24 @@ static std::string class_tag;
 static std::vector<std::pair<std::string, std::string>>* sink = nullptr;
 static void BAD(const std::string& rel, const std::string& det) { if (sink) sink->push_back({rel, det}); else gv::bad(rel, det + class_tag); }
 
+// The accuracy tables of Geodesic / GeodesicExact are for ellipsoids scaled to a quarter meridian of 10 000 km ("1/4 meridian = 10e6 m"
+// in GeodesicExact.cpp).  geodcommon.hpp scales the tolerance with a / 6378137, which is the same thing for nearly spherical ellipsoids;
+// on a prolate ellipsoid the meridian is longer (b = 4a at f = -3): scale with the quarter meridian, computed here by quadrature of
+// sqrt(a^2 sin^2 + b^2 cos^2) over the parametric latitude (never below 1, so nothing changes for oblate ellipsoids).
+static double qm_scale(double ea, double f) {
+  static double ka = 0, kf = 0, kv = 1; if (ea == ka && f == kf) return kv;
+  LD a = ea, b = ea * (1 - (LD)f); LD q = oracle::integrate([&](LD t) { return sqrtl(a * a * sinl(t) * sinl(t) + b * b * cosl(t) * cosl(t)); }, 0, oracle::PI / 2, 4);
+  ka = ea; kf = f; kv = std::fmax(1.0, (double)(q / (a * oracle::PI / 2))); return kv;
+}
+static double tolq(double acc, double ea, double f, double a12) { return tol_pos(acc, ea, a12) * qm_scale(ea, f); }
+
 struct Inv { double s12, azi1, azi2, a12, m12, M12, M21, S12; };
 template<class Geod> static Inv inv(const Geod& g, double lat1, double lon1, double lat2, double lon2) { Inv r; r.a12 = g.Inverse(lat1, lon1, lat2, lon2, r.s12, r.azi1, r.azi2, r.m12, r.M12, r.M21, r.S12); return r; }
 
 template<class Geod> static void props(const char* name, const Geod& g, double acc, double ea, double f, double lat1, double lon1, double lat2, double lon2) {
   if (std::isnan(acc)) return;
   Inv r = inv(g, lat1, lon1, lat2, lon2);
-  double tol = tol_pos(acc, ea, r.a12);
+  double tol = tolq(acc, ea, f, r.a12);
   // (F26/F28, fixed by d06599a: the exact solver used to stop bisecting too early for nearly equatorial geodesics on strongly prolate
   //  ellipsoids — closure errors from millimetres to hundreds of kilometres; the strata 13 of generate() keep watching that region)
   auto rel = [&](const char* base, double) { return std::string(base) + "-" + name; };
@@ -98,7 +109,7 @@ static Reg r_inv("ginverse", [](const Args& a) {
   budget_props("exact", E, acc_exact(f), ea, f, lat1, lon1, lat2, lon2);
   // the two solvers agree
   if (!std::isnan(acc_series(f)) && !std::isnan(acc_exact(f))) {
-    double tol = tol_pos(acc_series(f), ea, rg.a12) + tol_pos(acc_exact(f), ea, re.a12);
+    double tol = tolq(acc_series(f), ea, f, rg.a12) + tolq(acc_exact(f), ea, f, re.a12);
     if (!(std::fabs(rg.s12 - re.s12) <= tol)) BAD("series-vs-exact", "s12 differs between the solvers by " + std::to_string((rg.s12 - re.s12) * 1e9) + " nm");
   }
 });
@@ -106,7 +117,7 @@ static Reg r_inv("ginverse", [](const Args& a) {
 
 // ---- every entry point named by the property returns the same geodesic ------------------------------------------------
 // Inverse overloads, the public GenInverse, InverseLine (Geodesic, GeodesicExact, Geodesic(a, f, true))
-template<class Geod, class Line> static void entry_points(const char* name, const Geod& g, double acc, double ea, double lat1, double lon1, double lat2, double lon2) {
+template<class Geod, class Line> static void entry_points(const char* name, const Geod& g, double acc, double ea, double f, double lat1, double lon1, double lat2, double lon2) {
   Inv r = inv(g, lat1, lon1, lat2, lon2); if (std::isnan(r.s12)) return;
   auto rel = [&](const char* b) { return std::string(b) + "-" + name; };
   { double s, a1, a2, m, M1, M2, a;
@@ -123,7 +134,7 @@ template<class Geod, class Line> static void entry_points(const char* name, cons
   Line L = g.InverseLine(lat1, lon1, lat2, lon2);
   if (bits(L.Azimuth()) != bits(r.azi1) && !(r.s12 < 1e-3 || r.a12 > 179.9)) BAD(rel("inverseline-azimuth"), "InverseLine starts with azimuth " + std::to_string(L.Azimuth()) + ", Inverse returns " + std::to_string(r.azi1));
   if (bits(L.Arc()) != bits(r.a12)) BAD(rel("inverseline-arc"), "InverseLine: a13 = " + std::to_string(L.Arc()) + ", Inverse returns a12 = " + std::to_string(r.a12));
-  if (!std::isnan(acc)) { double tol = tol_pos(acc, ea, r.a12);
+  if (!std::isnan(acc)) { double tol = tolq(acc, ea, f, r.a12);
     if (!(std::fabs(L.Distance() - r.s12) <= tol)) BAD(rel("inverseline-distance"), "InverseLine: s13 = " + std::to_string(L.Distance()) + ", Inverse returns s12 = " + std::to_string(r.s12));
     double la, lo; L.Position(L.Distance(), la, lo); double d = (double)oracle::ground(ea, lat2, lon2, la, lo);
     if (!(d <= 3 * tol)) BAD(rel("inverseline-closure"), "the reference point of InverseLine is " + std::to_string(d * 1e9) + " nm from point 2"); }
@@ -132,12 +143,12 @@ static void set_budget(Geodesic& h) { h.maxit2_ = h.maxit1_ + 2 * Math::digits()
 static void set_budget(GeodesicExact& h) { h.maxit2_ = h.maxit1_ + 2 * Math::digits() + 20; }
 template<class Geod, class Line> static void budget_entry(const char* name, const Geod& g, double acc, double ea, double f, double lat1, double lon1, double lat2, double lon2) {
   std::vector<std::pair<std::string, std::string>> first, second;
-  sink = &first; entry_points<Geod, Line>(name, g, acc, ea, lat1, lon1, lat2, lon2); sink = nullptr;
+  sink = &first; entry_points<Geod, Line>(name, g, acc, ea, f, lat1, lon1, lat2, lon2); sink = nullptr;
   if (first.empty()) return;
   std::string tag; { double e, l12 = std::fabs(Math::AngDiff(lon1, lon2, e)); double over = (l12 - 180 * (1 - f)) + (std::signbit(Math::AngDiff(lon1, lon2)) ? -e : e); double s; g.Inverse(lat1, lon1, lat2, lon2, s);
     if (f >= 0.3 && Math::AngRound(lat1) == 0 && Math::AngRound(lat2) == 0 && over > 0 && over <= 64 * ulp(180.0) && s == 0) tag = " [class:equatorial-cutoff-roundoff]"; }
   if (tag.empty() && g.maxit2_ < g.maxit1_ + 2 * Math::digits() + 20) { Geod h(g); set_budget(h);
-    sink = &second; entry_points<Geod, Line>(name, h, acc, ea, lat1, lon1, lat2, lon2); sink = nullptr; if (second.empty()) tag = " [class:bisection-budget]"; }
+    sink = &second; entry_points<Geod, Line>(name, h, acc, ea, f, lat1, lon1, lat2, lon2); sink = nullptr; if (second.empty()) tag = " [class:bisection-budget]"; }
   // F64 (open): GeodesicExact::GenInverse reads s12x, which Lengths only sets when DISTANCE is requested, in the short-line guard of the
   // meridional branch: for meridional points less than 8 eps apart a12 depends on the output mask (uninitialised read)
   bool exactsolver = std::string(name).compare(0, 5, "exact") == 0; double sfull, a12full = g.Inverse(lat1, lon1, lat2, lon2, sfull);
